@@ -512,6 +512,14 @@ func vScenarioC18(rc *runCtx) {
 	if x.ccKeys = tp.Bool("c18.cckeys", 150); x.ccKeys {
 		rc.fault("keys-as-tmux-control-mode-commands")
 	}
+	// the queue in which a side keeps what it has read but not yet parsed is finite (10000 reads as shipped): with
+	// small reads and a paused reader it fills up, and the pump in front of it has to wait, not drop. The capacity is
+	// a tuning knob of the instrumented copy, turned down here so that a run of ordinary length gets there.
+	if !cfg.upload && tp.Bool("c18.smallqueue", 80) {
+		w.BufQueue = 8 + tp.Draw("c18.queuecap", 120)
+		x.down[0].ReadMax = 64 << uint(tp.Draw("c18.readmax", 4))
+		rc.fault("small-read-queue")
+	}
 	armed := vArmAfterCfg(x)
 	cycles := 1 + tp.Pick("c18.cycles", 5, 2, 1)
 	// pause length relative to the timeout
